@@ -395,7 +395,10 @@ class AsyncInotifyWrapper:
                     if watch is not None:
                         self.inotify.rm_watch(watch)
                         self.watches[path] = None
-                        self.change_queue.put_nowait((Change.DELETED_PARENT, path))
+                    # Also for a directory whose watch inotify already dropped (IGNORED comes
+                    # before the DELETE event of the parent for `rm -r`) and for one without
+                    # a watch of its own: the directory itself can be the match of a glob.
+                    self.change_queue.put_nowait((Change.DELETED_PARENT, path))
                 else:
                     paths = [path]
                     while len(paths) > 0:
